@@ -369,6 +369,35 @@ def refresh_keeps_nothing(ctx):
                 late.append(i)
         elif nn["k"] == "bin" and nn.get("op", "").endswith("=") and "data_" in rf.text(nn["l"]) and fl.may(i, "cleared"):
             late.append(i)
+    # ... and nothing the accessors remember lives anywhere else: between two ticks a CgroupContext method (the accessors are const, a
+    # `mutable` member gets round that) writes only the per-tick cache data_, which refresh() empties - refresh itself also the archive.
+    # A flag kept beside data_ ("this file was missing") is never reset: one tick without io.pressure, and the cgroup's io pressure
+    # reads as unavailable (0 for the detectors) for as long as the context lives.
+    n_m = 0
+    for g_ in sorted(P.fns.values(), key=lambda x: (x.file, x.line, x.usr)):
+        owner_ = g_
+        while owner_.kind == "lambda" and owner_.d.get("parentfn") in P.fns:
+            owner_ = P.fns[owner_.d["parentfn"]]
+        if owner_.cls != "Oomd::CgroupContext" or owner_.kind in ("ctor", "dtor") or owner_.name.startswith("operator"):
+            continue
+        n_m += 1
+        for i_ in range(len(g_.nodes)):
+            if g_.nodes[i_]["k"] not in ("bin", "call", "un") or g_.pos_of(i_) is None:
+                continue
+            for t_ in node_writes(g_, i_):
+                if not t_.startswith("F:Oomd::CgroupContext::") or t_.startswith("F:Oomd::CgroupContext::CgroupData::") or t_ == "F:Oomd::CgroupContext::data_":
+                    continue
+                fld_ = t_.split("::")[-1]
+                ft_ = next((x_.get("type", "") for x_ in P.classes.get("Oomd::CgroupContext", {}).get("fields", []) if x_["name"] == fld_), "")
+                if ft_.rstrip().endswith("&"):
+                    continue          # a reference member (the owning OomdContext): what is done through it is not this object's state
+                if owner_ is rf and fld_ == "archive_" or t_.startswith("F:Oomd::CgroupContext::CgroupArchivedData::") and owner_ is rf:
+                    continue
+                ctx.violation("context-state-is-cache-or-archive:%s:%s" % (short(owner_), fld_), "who-may-write (fields of CgroupContext)", g_.loc(i_),
+                              "%s writes CgroupContext::%s, which is neither the per-tick cache (emptied by refresh) nor the archive (rewritten by refresh): what it "
+                              "remembers survives every later tick - a statistic that was unavailable once stays unavailable for the lifetime of the context" % (owner_.pq, fld_))
+    ctx.counters["cgroupcontext_methods"] = n_m
+    ctx.floor("cgroupcontext_methods", 20, "methods of CgroupContext examined for writes outside the per-tick cache")
     ctx.check(len(clear) == 1 and not late, "refresh:nothing-survives-the-clear", "never_after", rf.loc(late[0]) if late else rf.loc(),
               "after the cache is emptied refresh writes nothing back into it: every value is read again on the new tick",
               "refresh writes '%s' into the per-tick cache after clearing it: that value is carried over from the previous tick and never re-read "
